@@ -39,6 +39,15 @@ CHECKS = {
             "slips fail), and the message entities' tree conversion is round-tripped.",
             "Trusts the protobuf runtime and the pinned field/kind table; unset == proto default.",
             "5/C10"),
+    "C11": ("exploration",
+            "schedule exploration: generated sender programs interleaved by a deterministic scheduler at lock/queue/call "
+            "yield points, judged by a strict in-order Noise responder double",
+            "2-4 real sender threads (plus the real keep-alive thread and a still-running handshake worker) send through the "
+            "real coder/noise/segments/network layers; the schedule is part of the generated case, so failures replay. The peer "
+            "parses the byte stream strictly and decrypts strictly in arrival order; transmitted ids must equal the sends that "
+            "returned normally, once each and in per-thread order; blocked tasks are detected logically.",
+            "Interleavings at lock/queue operations and function calls (thorough: lines) of the anchored files under the GIL.",
+            "5/C11"),
     "C12": ("fault_enumeration",
             "fault injection at every layer and direction of the real transport/protocol stack under a deterministic "
             "scheduler, against a Noise responder double; generated sender programs, incoming stanzas and schedules",
